@@ -75,6 +75,12 @@ fn write_body(
         } else {
             source.to_writer(&mut enc)?;
         }
+
+        // write out the final base64 quantum and the last line explicitly:
+        // errors of the underlying writer would be swallowed if this was left to `Drop`
+        enc.finish()?;
+        drop(enc);
+        line_wrapper.finish()?;
     }
 
     Ok(())
@@ -123,6 +129,11 @@ impl<W: std::io::Write> Base64Encoder<W> {
             writer,
             &general_purpose::STANDARD,
         ))
+    }
+
+    /// Writes the final (padded) quantum to the underlying writer.
+    pub(crate) fn finish(&mut self) -> std::io::Result<()> {
+        self.0.finish().map(|_| ())
     }
 }
 impl<W: std::io::Write> std::io::Write for Base64Encoder<W> {
